@@ -1,7 +1,7 @@
 package wgen
 
-// F8s — shadowing. A module-scope entity named `g` of every kind (const, private var, function, struct,
-// alias) x a local binder of every kind that takes the same name (let, typed let, var, typed var,
+// F8s — shadowing. A module-scope entity named `g` of every kind (typed const, untyped const, private var,
+// function, struct, alias) x a local binder of every kind that takes the same name (let, typed let, var, typed var,
 // function-scope const, parameter, for-initialiser var, and let/var/const inside every kind of nested
 // block) x the binder's initialiser (or type / argument) does or does not refer to the entity it shadows
 // (`let g = g * 2;`, `var g: g = g(5, 6);`, `fn host(g: g)`) x other references to the module-scope entity
@@ -17,7 +17,7 @@ package wgen
 
 import "fmt"
 
-var f8sKinds = []string{"const", "var", "fn", "struct", "alias"}
+var f8sKinds = []string{"const", "aconst", "var", "fn", "struct", "alias"} // aconst: `const g = 5;` (abstract, no type annotation)
 
 // binder: name, nested (its scope ends inside the function), kind of declaration
 var f8sBinders = []struct {
@@ -50,6 +50,13 @@ func (e f8sEnt) valid() bool {
 		return false
 	}
 	if use == "before" && bd.name == "param" {
+		return false
+	}
+	if kind == "aconst" && isConst && ref == "ref" && (use != "only" || f8sPos[e.pos] != "decl-before" || f8sWhere[e.where] != "helper") {
+		// `const g = 5; fn h() { const g = g * 2; ... g ... }`: the compiler under verification recurses without bound on
+		// every one of these (the local's initialiser is re-expanded at each use and finds the local itself), which
+		// no in-process check can survive; one representative per binder is kept so that the crash screen of
+		// internal/checks/c08x.go keeps announcing it, the other placements are left out.
 		return false
 	}
 	if f8sWhere[e.where] == "entry" && (bd.name == "param" || ref == "rev") {
@@ -89,6 +96,8 @@ func f8sProg(e f8sEnt) *f8Prog {
 			switch kind {
 			case "const":
 				b.konst("g", TI32, f8i(5))
+			case "aconst":
+				b.konst("g", nil, f8i(5))
 			case "var":
 				b.gvar("private", "g", TI32, f8i(5))
 			case "fn":
@@ -111,7 +120,7 @@ func f8sProg(e f8sEnt) *f8Prog {
 		// an i32 expression of value 5 that names the module-scope entity
 		entity := func() Expr {
 			switch kind {
-			case "const":
+			case "const", "aconst":
 				return L("g", TI32)
 			case "var":
 				return V("g", TI32)
